@@ -78,9 +78,9 @@ def verify(sid, wt, prop, full):
         shutil.copy(demo, dst)
         run = re.search(r"-run\s+(\S+)", demo_cmd + " " + first)
         runarg = "-run '%s'" % run.group(1).strip("'\"") if run else ""
-        tg = re.search(r"-tags[ =](\S+)", demo_cmd + " " + first)
+        tg = re.search(r"-tags[ =](?:'([^']+)'|\"([^\"]+)\"|(\S+))", demo_cmd + " " + first)
         if tg:
-            runarg = "-tags %s %s" % (tg.group(1).strip("'\""), runarg)
+            runarg = "-tags '%s' %s" % ((tg.group(1) or tg.group(2) or tg.group(3)).strip("'\""), runarg)
         cmd = "go test -vet=off -count=1 %s ./%s" % (runarg, target if target != "." else "")
         cmd = cmd.replace(".//", "./").rstrip("/") if target != "." else "go test -vet=off -count=1 %s ." % runarg
         rc1, out1 = sh(cmd, scratch)
